@@ -15,6 +15,7 @@ func init() {
 	scenarios["tcpab"] = scTCPAB{}
 	propScenario["C01"] = "tcpab"
 	propScenario["C02"] = "tcpab"
+	propScenario["C14"] = "tcpab"
 }
 
 // livenessBound is derived from RFC 6298: back-off doubling up to the 60 s
@@ -38,6 +39,21 @@ func (scTCPAB) GenCfg(rng *sim.Rand, tier, prop, variant string) json.RawMessage
 	}
 	if prop == "C01" {
 		c.CloseMix = rng.Pick(7, 3) // C01 is about the stream, mostly orderly shutdowns
+	}
+	if prop == "C14" {
+		// forced, not merely swarmed: one side's ISS sits just below 2^31 or 2^32,
+		// at most one transfer length away
+		c.ISSMode = rng.Range(1, 4)
+		c.ISSBack = rng.Intn(60000)
+		if rng.Chance(0.3) {
+			c.ISSBack = rng.Intn(6)
+		}
+		if c.Bytes[0] == 0 {
+			c.Bytes[0] = rng.Range(1, 60000)
+		}
+		if c.Bytes[1] == 0 {
+			c.Bytes[1] = rng.Range(1, 60000)
+		}
 	}
 	b, _ := json.Marshal(c)
 	return b
@@ -101,10 +117,10 @@ func (scTCPAB) Run(t *testing.T, prop string, seed uint64, cfgRaw json.RawMessag
 		if w.Viol == nil {
 			w.Drain(livenessBound)
 		}
-		if w.Viol == nil && prop != "C01" && !w.stormed {
+		if w.Viol == nil && prop == "C02" && !w.stormed {
 			w.Final(livenessBound)
 		}
-		if prop == "C01" && w.Viol != nil && !isStreamClass(w.Viol.Class) {
+		if prop != "C02" && w.Viol != nil && !isStreamClass(w.Viol.Class) {
 			w.Viol = nil
 		}
 		if trace {
